@@ -481,8 +481,34 @@ mod boxed {
   // 0111 1111 1111 1100 0000 0000 0000 0000 0000 0000 0000 0000 0000 0000 0000 0100
   pub const VALUE_UNDEFINED: Value = Value(TAG_UNDEFINED);
 
-  #[derive(PartialEq, Eq, Hash, Copy, Clone, Debug)]
+  #[derive(Eq, Copy, Clone, Debug)]
   pub struct Value(u64);
+
+  impl PartialEq for Value {
+    /// Numbers compare as IEEE doubles, 0 equals -0 and NaN differs from itself,
+    /// exactly as the unboxed representation compares them. Every other value
+    /// is equal when its encoding is
+    #[inline]
+    fn eq(&self, other: &Value) -> bool {
+      if self.is_num() && other.is_num() {
+        self.to_num() == other.to_num()
+      } else {
+        self.0 == other.0
+      }
+    }
+  }
+
+  impl std::hash::Hash for Value {
+    /// Equal values have to hash equally, 0 and -0 differ in their bits
+    /// so numbers are hashed the way the unboxed representation hashes them
+    fn hash<H: std::hash::Hasher>(&self, state: &mut H) {
+      if self.is_num() {
+        (self.to_num() as u64).hash(state);
+      } else {
+        self.0.hash(state);
+      }
+    }
+  }
 
   impl Value {
     #[inline]
